@@ -198,6 +198,9 @@ pub struct DocSpec {
     /// bytes before the header (must not contain "%PDF-")
     pub junk: Vec<u8>,
     pub revisions: Vec<Revision>,
+    /// the document is encrypted (RC4): strings and stream data of every object but `enc_obj` and
+    /// the cross-reference streams are written encrypted with the key of the object they are stored in
+    pub encrypt: Option<crate::crypt_ref::EncSpec>,
 }
 
 pub struct Written {
@@ -376,9 +379,17 @@ pub fn write_doc(spec: &DocSpec) -> Written {
                 Slot::Direct { gen, body } => {
                     let off = out.len() - base;
                     out.extend_from_slice(format!("{} {} obj\n", num, gen).as_bytes());
-                    match body {
-                        Body::Plain(v) => write_val(&mut out, v),
-                        Body::Stream { dict, data, len_ref } => write_stream_obj(&mut out, dict, data, *len_ref),
+                    match (body, &spec.encrypt) {
+                        (Body::Plain(v), Some(e)) if num != e.enc_obj => write_val(&mut out, &e.crypt_val(v, num, *gen)),
+                        (Body::Stream { dict, data, len_ref }, Some(e)) if num != e.enc_obj => {
+                            let d = match e.crypt_val(&Val::Dict(dict.clone()), num, *gen) {
+                                Val::Dict(d) => d,
+                                _ => unreachable!(),
+                            };
+                            write_stream_obj(&mut out, &d, &e.crypt_data(data, num, *gen), *len_ref)
+                        }
+                        (Body::Plain(v), _) => write_val(&mut out, v),
+                        (Body::Stream { dict, data, len_ref }, _) => write_stream_obj(&mut out, dict, data, *len_ref),
                     }
                     out.extend_from_slice(b"\nendobj\n");
                     entries.insert(num, Entry::InUse { off, gen: *gen });
@@ -441,6 +452,11 @@ pub fn write_doc(spec: &DocSpec) -> Written {
             }
             let off = out.len() - base;
             out.extend_from_slice(format!("{} 0 obj\n", os.num).as_bytes());
+            // an object stream is encrypted as a whole; the strings of its members are not
+            let data = match &spec.encrypt {
+                Some(e) => e.crypt_data(&data, os.num, 0),
+                None => data,
+            };
             write_stream_obj(&mut out, &d, &data, None);
             out.extend_from_slice(b"\nendobj\n");
             entries.insert(os.num, Entry::InUse { off, gen: 0 });
@@ -851,7 +867,7 @@ impl DocSpec {
                 json!({ "slots": slots, "objstms": objstms, "style": style, "size": r.size, "root": r.root.to_json(), "trailer": dict_to_json(&r.trailer), "overrides": dict_to_json(&r.overrides) })
             })
             .collect();
-        json!({ "junk": hex(&self.junk), "revisions": revs })
+        json!({ "junk": hex(&self.junk), "revisions": revs, "encrypt": self.encrypt.as_ref().map(|e| e.to_json()) })
     }
     pub fn from_json(j: &J) -> Option<DocSpec> {
         let mut revisions = vec![];
@@ -898,7 +914,7 @@ impl DocSpec {
                 overrides: r.get("overrides").and_then(dict_from_json).unwrap_or_default(),
             });
         }
-        Some(DocSpec { junk: unhex(j.get("junk")?.as_str()?)?, revisions })
+        Some(DocSpec { junk: unhex(j.get("junk")?.as_str()?)?, revisions, encrypt: j.get("encrypt").and_then(crate::crypt_ref::EncSpec::from_json) })
     }
 }
 
@@ -976,10 +992,18 @@ impl Builder {
         } else {
             XrefStyle::Classic { cuts: vec![] }
         };
-        DocSpec {
-            junk: layout.junk.clone(),
-            revisions: vec![Revision { slots, objstms, style, size: next, root: Val::r(root), trailer: layout.trailer.clone(), overrides: vec![] }],
-        }
+        let mut trailer = layout.trailer.clone();
+        let encrypt = layout.encrypt.map(|(r, key_len)| {
+            let id0 = b"0123456789abcdef".to_vec();
+            let e = crate::crypt_ref::EncSpec { r, key_len, user_pw: vec![], owner_pw: b"owner".to_vec(), p: -4, id0: id0.clone(), enc_obj: next };
+            slots.insert(next, Slot::Direct { gen: 0, body: Body::Plain(e.dict()) });
+            trailer.retain(|(k, _)| k != "Encrypt" && k != "ID");
+            trailer.push(("Encrypt".into(), Val::r(next)));
+            trailer.push(("ID".into(), Val::Arr(vec![Val::Str(id0.clone()), Val::Str(id0)])));
+            next += 1;
+            e
+        });
+        DocSpec { junk: layout.junk.clone(), revisions: vec![Revision { slots, objstms, style, size: next, root: Val::r(root), trailer, overrides: vec![] }], encrypt }
     }
 }
 
@@ -993,10 +1017,13 @@ pub struct Layout {
     pub junk: Vec<u8>,
     pub keep_direct: Vec<u32>,
     pub trailer: Dict,
+    /// write an encrypted document (standard security handler revision, key bytes); the user password
+    /// is empty, /ID is added to the trailer
+    pub encrypt: Option<(u8, usize)>,
 }
 impl Layout {
     pub fn classic() -> Layout {
-        Layout { xref_stream: false, compress: false, objstm_filter: StmFilter::None, xref_filter: StmFilter::None, trailing_ws: true, junk: vec![], keep_direct: vec![], trailer: vec![] }
+        Layout { xref_stream: false, compress: false, objstm_filter: StmFilter::None, xref_filter: StmFilter::None, trailing_ws: true, junk: vec![], keep_direct: vec![], trailer: vec![], encrypt: None }
     }
     pub fn random(rng: &mut Rng) -> Layout {
         let filters = [StmFilter::None, StmFilter::FlateStored, StmFilter::AsciiHex];
@@ -1010,6 +1037,7 @@ impl Layout {
             junk: vec![],
             keep_direct: vec![],
             trailer: vec![],
+            encrypt: None,
         }
     }
 }
